@@ -396,7 +396,6 @@ def getitem (o k : CV) : R :=
 
 def expand : List (Bool × CV) → Except CE (List CV)
   | [] => .ok []
-  | (false, .bad) :: _ => unm
   | (false, v) :: r => do
       let xs ← expand r
       .ok (v :: xs)
@@ -652,19 +651,18 @@ def call (strict : Bool) (data : List (Str × CV)) (cc : CallT) (f : CV) (args :
     (kws : List (Option Str × CV)) : R :=
   -- the lookup helpers of the rewritten code, called as the transformer writes the calls
   match f, args, kws with
-  | .builtin n, [(false, .builtin d), (false, .str id)], [] =>
-      if n = cs!"_lookup_name" && d = cs!"__data__" then lookupName (world strict data) id
-      else unm
-  | _, _, _ =>
-  match f, args, kws with
-  | .builtin n, [(false, obj), (false, k)], [] =>
-      if n = cs!"_lookup_attr" then
-        match k with
-        | .str a => lookupAttr sem0 (world strict data) obj a
+  | .builtin n, [(false, a1), (false, a2)], [] =>
+      if n = cs!"_lookup_name" then
+        match a1, a2 with
+        | .builtin d, .str id => if d = cs!"__data__" then lookupName (world strict data) id else unm
+        | _, _ => unm
+      else if n = cs!"_lookup_attr" then
+        match a2 with
+        | .str a => lookupAttr sem0 (world strict data) a1 a
         | _ => unm
       else if n = cs!"_lookup_item" then
-        match k with
-        | .tuple [key] => lookupItem sem0 (world strict data) obj key
+        match a2 with
+        | .tuple [key] => lookupItem sem0 (world strict data) a1 key
         | _ => unm
       else do
         let pos ← expand args
@@ -930,10 +928,14 @@ def callAt (py strict : Bool) (data : List (Str × CV)) : Nat → CallT
             body (paramScope names b ++ env)
       | _ => .error .typeError
 
-/-- `py = false`: the documented semantics of `e`;  `py = true`: Python's evaluation of the rewritten tree -/
+/-- `py = false`: the documented semantics of `e`;  `py = true`: Python's evaluation of the rewritten tree;
+    `cc`: how closures are called -/
+def runWith (py strict : Bool) (data : List (Str × CV)) (cc : CallT) (e : PyExpr) : R :=
+  evalD (sem strict data cc) (lookOf py strict data cc) mkClo (if py then xform e else e) []
+
+/-- … with closures called by re-entering the evaluator (same mode), `fuel` levels deep -/
 def run (py strict : Bool) (data : List (Str × CV)) (fuel : Nat) (e : PyExpr) : R :=
-  evalD (sem strict data (callAt py strict data fuel)) (lookOf py strict data (callAt py strict data fuel)) mkClo
-    (if py then xform e else e) []
+  runWith py strict data (callAt py strict data fuel) e
 
 end C
 end Genshi.Py
